@@ -216,8 +216,32 @@ Proof.
   rewrite forallb_forall in H. exists v. apply H. exact HI.
 Qed.
 
+(** a register no instruction names as destination keeps its exact value *)
+Lemma xwrite_other_reg : forall st o v r, (match o with XReg r' _ => r' <> r | _ => True end) ->
+  xr (xwrite w st o v) r = xr st r.
+Proof.
+  intros st o v r H. destruct o as [r' sz|k|t|c]; cbn [xwrite xr]; try reflexivity.
+  unfold upd. destruct (r =? r') eqn:E; [apply Z.eqb_eq in E; subst; contradiction|reflexivity].
+Qed.
+
+Lemma xstep_keeps : forall st i r, (match dest_reg i with Some r' => r' <> r | None => True end) ->
+  xr (xstep w st i) r = xr st r.
+Proof.
+  intros st i r H. destruct i as [d src|d src|d src|d|d|d src|d src c|d b idx disp]; cbn [xstep];
+    apply xwrite_other_reg; cbn [dest_reg] in H; try (destruct d; (exact H || exact I)); try exact H.
+Qed.
+
+Lemma xrun_keeps : forall code st r, pinned r = true -> keeps_pinned code = true -> xr (xrun w code st) r = xr st r.
+Proof.
+  induction code as [|i code IH]; intros st r P K; [reflexivity|]. cbn [xrun fold_left]. fold (xrun w code (xstep w st i)).
+  cbn [keeps_pinned forallb] in K. apply andb_prop in K. destruct K as [K1 K2].
+  rewrite (IH _ r P K2). apply xstep_keeps. destruct (dest_reg i) as [r'|]; [|exact I].
+  intros E. subst r'. rewrite P in K1. discriminate.
+Qed.
+
 Theorem form_ok_sound : forall i live code dst want,
   form_ok w i live code = true -> form_spec w i = Some (dst, want) ->
+  (forall r, pinned r = true -> xr (xrun w code st0) r = xr st0 r) /\
   xval (xrun w code st0) dst == ev want /\
   (forall k, LCell k <> dst -> xc (xrun w code st0) k == xc st0 k) /\
   (forall t, LSlot t <> dst -> xs (xrun w code st0) t == xs st0 t) /\
@@ -226,8 +250,10 @@ Proof.
   intros i live code dst want H SP. unfold form_ok in H. rewrite SP in H.
   destruct (srun w code sst0) as [s|] eqn:SR; [|discriminate].
   destruct (srun_sound code st0 sst0 s agrees0 SR) as (AR & AC & AS).
+  apply andb_prop in H. destruct H as [HP H].
   apply andb_prop in H. destruct H as [H HR]. apply andb_prop in H. destruct H as [H HS].
   apply andb_prop in H. destruct H as [HD HC].
+  split; [intros r P; apply xrun_keeps; assumption|].
   split; [|split; [|split]].
   - apply same_poly_sound in HD. rewrite <- HD. destruct dst as [r|k|t]; cbn [xval]; [apply AR|apply AC|apply AS].
   - intros k N. rewrite (AC k).
